@@ -5,7 +5,7 @@
 From Coq Require Import List NArith Bool.
 Import ListNotations.
 Require Import Verif.Lib.Wire Verif.Lib.Text Verif.Lib.PathNorm Verif.Lib.Utf8 Verif.Gen.Facts_C01 Verif.Model.C01 Verif.Proofs.C01
-  Verif.Proofs.C01_b Verif.Gen.Prog_C01 Verif.Proofs.C01_gen.
+  Verif.Proofs.C01_b Verif.Gen.Prog_C01 Verif.Proofs.C01_gen Verif.Proofs.C01_x.
 Local Close Scope N_scope.
 Local Open Scope nat_scope.
 
@@ -343,3 +343,91 @@ Print Assumptions C01_generated_has_routes_is_model.
 Theorem C01_generated_get_route_is_model : forall m n, gen_get_route m n = get_route_model m n.
 Proof. exact gen_get_route_is_model. Qed.
 Print Assumptions C01_generated_get_route_is_model.
+
+(* ---- seventh round: route predicates that are functions of the request (pyramid/predicates.py) *)
+(* RequestParamPredicate.__call__ regenerated from the source equals the reference *)
+Theorem C01_generated_param_call_is_model : forall reqs ps, gen_param_call reqs ps = param_call_model reqs ps.
+Proof. exact gen_param_call_is_model. Qed.
+Print Assumptions C01_generated_param_call_is_model.
+
+(* request.params.get(k): the value of the LAST occurrence of the key *)
+Theorem C01_params_get_last : forall ps k v,
+  params_get ps k = Some v <->
+  exists pre post, ps = pre ++ (k, v) :: post /\ Forall (fun kv => fst kv <> k) post.
+Proof. exact params_get_last. Qed.
+Print Assumptions C01_params_get_last.
+
+(* the predicate holds iff every required key is present and every required value -- the empty
+   one included -- is the parameter's value *)
+Theorem C01_param_call_spec : forall reqs ps,
+  gen_param_call reqs ps = true <->
+  Forall (fun kv => exists a, params_get ps (fst kv) = Some a /\ (snd kv = None \/ snd kv = Some a)) reqs.
+Proof. exact gen_param_call_spec. Qed.
+Print Assumptions C01_param_call_spec.
+
+(* how RequestParamPredicate.__init__ reads one value *)
+Theorem C01_param_parse_bare : forall p, ~ In c_eq p -> param_parse p = (p, None).
+Proof. exact param_parse_bare. Qed.
+Print Assumptions C01_param_parse_bare.
+
+Theorem C01_param_parse_kv : forall k v, k <> [] -> ~ In c_eq k ->
+  param_parse (k ++ c_eq :: v) = (strip_ws k, Some (strip_ws v)).
+Proof. exact param_parse_kv. Qed.
+Print Assumptions C01_param_parse_kv.
+
+Theorem C01_param_parse_eq_key : forall k v, ~ In c_eq k ->
+  param_parse (c_eq :: k ++ c_eq :: v) = (strip_ws (c_eq :: k), Some (strip_ws v)).
+Proof. exact param_parse_eq_key. Qed.
+Print Assumptions C01_param_parse_eq_key.
+
+(* request_param='k=': present AND empty *)
+Theorem C01_param_empty_value_required : forall k ps,
+  k <> [] -> ~ In c_eq k -> strip_ws k = k ->
+  (gen_param_call (param_init_model [k ++ [c_eq]]) ps = true <-> params_get ps k = Some []).
+Proof. exact gen_param_empty_value_required. Qed.
+Print Assumptions C01_param_empty_value_required.
+
+(* resolving a request predicate against the request gives a predicate with the declarative outcome *)
+Theorem C01_xresolve_holds : forall e method d x,
+  pred_ok method d (xresolve gen_param_call e x) = xpred_holds e method d x.
+Proof. exact gen_xresolve_holds. Qed.
+Print Assumptions C01_xresolve_holds.
+
+Theorem C01_xparam_holds_iff : forall e method d neg vs,
+  xpred_holds e method d (XParam neg vs) = true <->
+  (if neg then ~ Forall (fun kv => exists a, params_get (e_params e) (fst kv) = Some a /\ (snd kv = None \/ snd kv = Some a)) (map param_parse vs)
+   else Forall (fun kv => exists a, params_get (e_params e) (fst kv) = Some a /\ (snd kv = None \/ snd kv = Some a)) (map param_parse vs)).
+Proof. exact xparam_holds_iff. Qed.
+Print Assumptions C01_xparam_holds_iff.
+
+(* end to end with request predicates: declarations resolved on the request, connected and
+   dispatched by the REGENERATED program (connect, __call__, the route-prefix fragments,
+   RequestParamPredicate.__call__) = the declarative specification on the reference resolution *)
+Theorem C01_request_spec_x_generated : forall O e xs method raw m sts,
+  let ds := xbuild gen_param_call gen_nest_prefix gen_prefix_pattern xs e in
+  sup_with (spec_parse_m O) ds = true ->
+  connect_all_f (gen_connect (parse_pattern_m O)) empty_mapper 0 ds = (m, sts) ->
+  spec_request_m O (xbuild param_call_model nest_prefix_model prefix_pattern_model xs e) method raw
+  = spec_of_outcome (fst (gen_call (match_pat_m O) m method raw)).
+Proof. exact gen_request_spec_x. Qed.
+Print Assumptions C01_request_spec_x_generated.
+
+Theorem C01_dispatch_first_x_generated : forall O e method raw m r d xps,
+  fst (gen_call (match_pat_m O) m method raw) = OMatch r d ->
+  r_preds r = map (xresolve param_call_model e) xps ->
+  forallb (xpred_holds e method d) xps = true.
+Proof. exact gen_dispatch_first_x. Qed.
+Print Assumptions C01_dispatch_first_x_generated.
+
+(* traverse= (hybrid routes): the outcome the model reports for such a route is the specified one:
+   every captured entry is kept, the key 'traverse' is added only when no placeholder has that name *)
+Theorem C01_traverse_fix_is_spec : forall xs o,
+  spec_of_outcome (traverse_fix xs o) = spec_traverse_fix xs (spec_of_outcome o).
+Proof. exact traverse_fix_is_spec. Qed.
+Print Assumptions C01_traverse_fix_is_spec.
+
+Theorem C01_traverse_fix_keeps_captures : forall xs r d r' d' k,
+  traverse_fix xs (OMatch r d) = OMatch r' d' ->
+  r' = r /\ (forall v, dict_get d k = Some v -> dict_get d' k = Some v).
+Proof. exact traverse_fix_keeps_captures. Qed.
+Print Assumptions C01_traverse_fix_keeps_captures.
